@@ -73,6 +73,8 @@ fn log_invocation(log: &Log, ext: &Extensions, method: &str, params: &Params) {
 #[derive(Debug)]
 pub enum SubCmd {
 	Accept,
+	/// `timeout(ms, pending.accept())`: under back-pressure the accept is abandoned half-way
+	AcceptTimeout(u64),
 	Reject,
 	/// send an item with this payload
 	Send(u64),
@@ -304,6 +306,25 @@ async fn run_controlled_sub(p: Params<'static>, pending: PendingSubscriptionSink
 						}
 						Err(_) => {
 							ev(&ctl, inv, "accept", false, None);
+							*ctl.released.lock().unwrap() = Some(rt::now_stamp());
+						}
+					}
+				}
+			}
+			SubCmd::AcceptTimeout(ms) => {
+				if let Some(p) = pending.take() {
+					match tokio::time::timeout(Duration::from_millis(ms), p.accept()).await {
+						Ok(Ok(s)) => {
+							sink = Some(s);
+							ev(&ctl, inv, "accept", true, None);
+						}
+						Ok(Err(_)) => {
+							ev(&ctl, inv, "accept", false, None);
+							*ctl.released.lock().unwrap() = Some(rt::now_stamp());
+						}
+						Err(_) => {
+							rt::probe("accept_abandoned");
+							ev(&ctl, inv, "accept-abandoned", false, None);
 							*ctl.released.lock().unwrap() = Some(rt::now_stamp());
 						}
 					}
